@@ -10,8 +10,26 @@ import (
 	"github.com/jimsnab/go-redisemu/verifrt"
 )
 
+// seqSpecsFor returns the explicit-state specifications a property's check consists of.
+func seqSpecsFor(id, tier string) []*SeqSpec {
+	switch id {
+	case "C06":
+		return []*SeqSpec{specC06(tier), specC06glob(tier)}
+	}
+	if sp := seqSpecFor(id, tier); sp != nil {
+		return []*SeqSpec{sp}
+	}
+	return nil
+}
+
 func seqSpecFor(id, tier string) *SeqSpec {
 	switch id {
+	case "C06#glob":
+		return specC06glob(tier)
+	case "C06":
+		return specC06(tier)
+	case "C07":
+		return specC07(tier)
 	case "C02":
 		return specC02(tier)
 	case "C03":
@@ -77,14 +95,16 @@ func main() {
 			*tier = t
 		}
 		redisemu.VInit()
-		if sp := seqSpecFor(id, *tier); sp != nil {
+		if sps := seqSpecsFor(id, *tier); sps != nil {
 			rep := newReport(id, *tier, "model_checking")
 			rep.Assume = []string{
 				"the reference model transcribes Redis 7 command semantics from the command reference (no Redis server is available offline)",
 				"values outside the stated alphabet and sequences longer than depth_completed are not covered",
 				"error replies are compared by class (first word), not by message text",
 			}
-			runSeqCheck(sp, *tier, rep)
+			for _, sp := range sps {
+				runSeqCheck(sp, *tier, rep)
+			}
 			os.Exit(rep.finish())
 		}
 		fmt.Fprintln(os.Stderr, "unknown property", id)
